@@ -11,7 +11,13 @@
    threw what, nothing delivered after an error, delivered objects are a prefix of the
    fault-free decode, thread count and open fds before/after, decompressor.read calls after
    close() returned, decompressor destroyed.
-3. trace validation against the compiled model (lean/Driver/C07.lean), as in C05.
+3. trace validation against the compiled model (scheduling validator lean/Driver/C05.lean), as in C05.
+
+Regression probes with stable keys (found by this check, fixed in /repo, KNOWN_FINDINGS.txt `fixed:`
+ba026d4, e0f0db9; verified to fire again on a copy with the fix reverted):
+`pbf-file-fd-leak-on-parse-error` (corrupt/truncated PBF FILES read directly through the fd by the
+parser thread: fd count before/after), `pbf-file-read-continues-after-close` (many-block PBF file,
+close() after 0..2 reads with a slowed-down parser: file offset of a dup'ed fd at close() vs at the end).
 """
 import os
 
